@@ -68,6 +68,14 @@ type fcase struct {
 	LdlL     [][]rat  `json:"ldll"`
 	LdlD     []rat    `json:"ldld"`
 	SuffPD   bool     `json:"suffpd"`
+	CondK    bool     `json:"condk"`
+	Cond     struct {
+		A    rat  `json:"a"`
+		B    rat  `json:"b"`
+		Sqrt bool `json:"sqrt"`
+		E2   int  `json:"e2"`
+	} `json:"cond"`
+	OrthK int `json:"orthk"`
 	Routines []string `json:"routines"`
 }
 
@@ -150,6 +158,8 @@ type event struct {
 	Invar    bool            `json:"invar"`
 	InputMod bool            `json:"inputmod"`
 	Resid    string          `json:"resid"`
+	CondTol  bool            `json:"condtol"` // orthogonality judged with the condition-number tolerance of the case
+	Orth     string          `json:"orth"`    // info: ||F1'F1 - I||_F and the tolerance used
 }
 
 var (
